@@ -6,7 +6,7 @@
 use crate::core::{Cfg, Phase, Report, Sink, Tier};
 use crate::engine::{self, Sequences};
 use crate::librun::{self, Diag, Input, Outcome};
-use crate::props::kit::{Batch, quote};
+use crate::props::kit::{Batch, BatchHost, quote};
 use regex::Regex;
 use serde_json::{Value, json};
 use std::sync::Arc;
@@ -26,11 +26,78 @@ fn run_file(name: &str, text: &str) -> Outcome {
     librun::run(&Input { files: vec![(name.to_string(), text)], ..Default::default() })
 }
 
+/// Host of the batched files: the layout phases flip this to the Markdown host whose start-tag
+/// comment goes on for two lines after the tag.
+static MD_HOST: AtomicBool = AtomicBool::new(false);
+
+fn md_host() -> bool {
+    MD_HOST.load(Ordering::Relaxed)
+}
+
+fn with_md_host<T>(f: impl FnOnce() -> T) -> T {
+    MD_HOST.store(true, Ordering::Relaxed);
+    let out = f();
+    MD_HOST.store(false, Ordering::Relaxed);
+    out
+}
+
+/// Violating blocks of the other synchronous validators: every batched file carries all of them
+/// (one before, the others after the blocks under test), so that whatever collects and merges the
+/// validators' results per file has something to merge, and each must report exactly once.
+const COMPANIONS: &[(&str, &str, &[&str])] = &[
+    ("keep-sorted", "keep-sorted", &["q2", "q1"]),
+    ("keep-unique", "keep-unique", &["q1", "q1"]),
+    ("line-pattern", "line-pattern=\"^z\"", &["q1"]),
+    ("line-count", "line-count=\"<1\"", &["q1"]),
+];
+
+fn new_batch(own: &str) -> Batch {
+    let mut b = Batch::with_host(if md_host() { BatchHost::MdMulti } else { BatchHost::Py });
+    let (code, attrs, lines) = COMPANIONS.iter().rev().find(|c| c.0 != own).expect("companion");
+    b.companion(code, attrs, lines);
+    b
+}
+
+fn close_batch(b: &mut Batch, own: &str) {
+    let leading = b.companions.first().map(|c| c.0.clone()).unwrap_or_default();
+    for (code, attrs, lines) in COMPANIONS.iter().filter(|c| c.0 != own && c.0 != leading) {
+        b.companion(code, attrs, lines);
+    }
+}
+
+/// Every companion block must have produced exactly one diagnostic of its code.
+fn check_companions(prop: &str, batch: &Batch, diags: &[Diag], sink: &Sink, input: &Value) {
+    for (i, (code, from, to)) in batch.companions.iter().enumerate() {
+        let n = diags.iter().filter(|d| d.code == *code && batch.companion_at(d.range.0 as usize) == Some(i)).count();
+        if n != 1 {
+            sink.fail(format!("{prop}:companion-diagnostics:{code}:{n}"), format!("the violating {code} block at lines {from}-{to} of the same file has {n} diagnostics instead of 1"), input.clone());
+        }
+    }
+}
+
+/// Replays run under the line ends and host recorded in the input.
+fn with_flags(input: &Value, f: impl FnOnce()) {
+    CRLF.store(input["crlf"].as_bool() == Some(true), Ordering::Relaxed);
+    MD_HOST.store(input["md_host"].as_bool() == Some(true), Ordering::Relaxed);
+    f();
+    CRLF.store(false, Ordering::Relaxed);
+    MD_HOST.store(false, Ordering::Relaxed);
+}
+
 fn with_crlf<T>(f: impl FnOnce() -> T) -> T {
     CRLF.store(true, Ordering::Relaxed);
     let out = f();
     CRLF.store(false, Ordering::Relaxed);
     out
+}
+
+/// Compiled patterns of the reference, cached per thread (compiling Unicode classes is the
+/// dominant cost of a state otherwise).
+fn cached_regex(p: &str) -> Regex {
+    thread_local! {
+        static CACHE: std::cell::RefCell<std::collections::HashMap<String, Regex>> = Default::default();
+    }
+    CACHE.with(|c| c.borrow_mut().entry(p.to_string()).or_insert_with(|| Regex::new(p).unwrap()).clone())
 }
 
 fn is_blank(s: &str) -> bool {
@@ -83,6 +150,9 @@ fn per_block<'a>(batch: &Batch, diags: &'a [Diag], code: &str, by_tag: bool) -> 
     let mut result: Vec<Vec<&Diag>> = vec![Vec::new(); batch.blocks.len()];
     let mut stray = Vec::new();
     for d in diags {
+        if batch.companion_at(d.range.0 as usize).is_some_and(|i| batch.companions[i].0 == d.code) {
+            continue;
+        }
         let idx = if by_tag { batch.block_with_tag_at(d.range.0 as usize) } else { batch.block_at(d.range.0 as usize) };
         match idx {
             Some(i) if d.code == code => result[i].push(d),
@@ -114,7 +184,7 @@ pub fn first_line(s: &str) -> String {
 // C06 keep-sorted
 // ---------------------------------------------------------------------------------------------
 
-const C06_BASE: &[&str] = &["b", "a", "b ", "  a", "ab", "", "2", "10", "9.5", "-3", "2.0", "k=2 x", "k=10 y", "zz", "B", "   ", "z=1 q"];
+const C06_BASE: &[&str] = &["b", "a", "b ", "  a", "ab", "", "2", "10", "9.5", "-3", "2.0", "k=2 x", "k=10 y", "zz", "B", "   ", "z=1 q", "k= w"];
 const C06_EXT: &[&str] = &[
     "b", "a", "", "é", "z", "Z", "a b", "0", "-0", "1e1", "+2", "k=2", "  k=3 k=1", "k=02 z", "10", "9", "9.5", "\tb", "a\u{a0}", "aa", "k= 5", "\u{3000}",
 ];
@@ -132,7 +202,16 @@ const C06_DIRS: &[(&str, bool)] = &[
     ("keep-sorted=\"\"", false),
 ];
 // The group pattern's whole match (`z=1`) orders differently from its `value` group (`1`).
-const C06_PATTERNS: &[Option<&str>] = &[None, Some(r"[a-z]=(?P<value>\d+)"), Some(r"[a-z]=\d+")];
+const C06_PATTERNS: &[Option<&str>] = &[
+    None,
+    Some(r"[a-z]=(?P<value>\d+)"),
+    Some(r"[a-z]=\d+"),
+    // Ascending spelling only: a group that may be empty, a key anchored at the end of the line,
+    // a whole match that runs to the end of the line (trailing blanks belong to the key).
+    Some(r"[a-z]=(?P<value>\d*)"),
+    Some(r"(?P<value>\S+)$"),
+    Some(r"[a-z].*"),
+];
 
 fn numeric_value(s: &str) -> Option<f64> {
     // Plain decimal numbers only; anything else is left to C13 (malformed rule).
@@ -177,9 +256,12 @@ fn c06_configs() -> Vec<C06Config> {
     let mut v = Vec::new();
     for numeric in [false, true] {
         for (di, (dir, desc)) in C06_DIRS.iter().enumerate() {
-            for pat in C06_PATTERNS {
+            for (pi, pat) in C06_PATTERNS.iter().enumerate() {
                 let canonical_spelling = di == 0 || di == 2;
                 if !canonical_spelling && pat.is_some() {
+                    continue;
+                }
+                if di != 0 && pi >= 3 {
                     continue;
                 }
                 let mut attrs = dir.to_string();
@@ -208,10 +290,10 @@ fn c06_configs() -> Vec<C06Config> {
 }
 
 fn c06_check(lines: &[String], configs: &[C06Config], sink: &Sink) {
-    let input = json!({"lines": lines, "crlf": crlf()});
+    let input = json!({"lines": lines, "crlf": crlf(), "md_host": md_host()});
     let mut distinct = false;
     for numeric in [false, true] {
-        let mut batch = Batch::new();
+        let mut batch = new_batch("keep-sorted");
         let mut expected: Vec<(usize, Option<(usize, usize, usize)>)> = Vec::new(); // (config idx, expected (line, c1, c2))
         for (ci, c) in configs.iter().enumerate().filter(|(_, c)| c.numeric == numeric) {
             let ks = keys(lines, c.pattern.as_ref());
@@ -219,8 +301,8 @@ fn c06_check(lines: &[String], configs: &[C06Config], sink: &Sink) {
                 continue; // non-numeric keys under numeric sort: C13
             }
             let idx = batch.block(&c.attrs, lines);
-            let tag_line = batch.blocks[idx].tag_line;
-            let exp = first_out_of_order(&ks, c.desc, numeric).map(|i| (tag_line + 1 + ks[i].line_idx, ks[i].col_start, ks[i].col_end));
+            let first = batch.blocks[idx].first_content_line;
+            let exp = first_out_of_order(&ks, c.desc, numeric).map(|i| (first + ks[i].line_idx, ks[i].col_start, ks[i].col_end));
             if ks.len() >= 2 {
                 distinct = true;
             }
@@ -229,16 +311,18 @@ fn c06_check(lines: &[String], configs: &[C06Config], sink: &Sink) {
         if batch.blocks.is_empty() {
             continue;
         }
+        close_batch(&mut batch, "keep-sorted");
         sink.exec();
-        let outcome = run_file("x.py", batch.text());
+        let outcome = run_file(batch.file_name(), batch.text());
         sink.outcome(format!("{}:{}", if numeric { "numeric" } else { "lex" }, outcome.class()));
         if common_failure("C06", &outcome, sink, &input, if numeric { "numeric" } else { "lex" }) {
             continue;
         }
-        if outcome.blocks().len() != batch.blocks.len() {
-            sink.machinery(format!("C06: scaffold yielded {} blocks, expected {} for {input}", outcome.blocks().len(), batch.blocks.len()));
+        if outcome.blocks().len() != batch.blocks.len() + batch.companions.len() {
+            sink.machinery(format!("C06: scaffold yielded {} blocks, expected {} for {input}", outcome.blocks().len(), batch.blocks.len() + batch.companions.len()));
             continue;
         }
+        check_companions("C06", &batch, outcome.diags(), sink, &input);
         let (by_block, stray) = per_block(&batch, outcome.diags(), "keep-sorted", false);
         for d in stray {
             sink.fail("C06:stray-diagnostic", format!("diagnostic not attributable to a keep-sorted block: {}", diag_lines(d)), input.clone());
@@ -255,7 +339,7 @@ fn c06_check(lines: &[String], configs: &[C06Config], sink: &Sink) {
                     let r = d.range;
                     if (r.0 as usize, r.2 as usize) != (e.0, e.0) {
                         sink.fail(format!("C06:wrong-line-designated:{}", c.label), format!("{}: expected the first out-of-order key at line {} but diagnostic is {}", ctx(), e.0, diag_lines(d)), input.clone());
-                    } else if (r.1 as usize, r.3 as usize) != (e.1, e.2) {
+                    } else if e.1 <= e.2 && (r.1 as usize, r.3 as usize) != (e.1, e.2) {
                         sink.fail(format!("C06:wrong-columns:{}", c.label), format!("{}: expected cols {}-{} but diagnostic is {}", ctx(), e.1, e.2, diag_lines(d)), input.clone());
                     } else if d.severity != 1 {
                         sink.fail("C06:wrong-severity", format!("{}: severity {}", ctx(), d.severity), input.clone());
@@ -362,7 +446,7 @@ pub fn run_c06(cfg: &Cfg, sink: &Arc<Sink>) -> Report {
     // Oracle self-test on the README examples.
     let ex = |lines: &[&str], desc, numeric, pat: Option<&str>| {
         let l: Vec<String> = lines.iter().map(|s| s.to_string()).collect();
-        let re = pat.map(|p| Regex::new(p).unwrap());
+        let re = pat.map(|p| cached_regex(p));
         first_out_of_order(&keys(&l, re.as_ref()), desc, numeric)
     };
     if ex(&["\"apple\",", "\"banana\",", "\"cherry\","], false, false, None).is_some()
@@ -384,6 +468,8 @@ pub fn run_c06(cfg: &Cfg, sink: &Arc<Sink>) -> Report {
     report.phase(seq_phase("long blocks over a 4-line alphabet", C06_LONG, cfg.tier.pick(7, 9), cfg, sink, move |lines, sink| c06_check(lines, &c, sink)));
     let c = configs.clone();
     report.phase(with_crlf(|| seq_phase("base-alphabet, CRLF line ends", C06_BASE, cfg.tier.pick(3, 4), cfg, sink, move |lines, sink| c06_check(lines, &c, sink))));
+    let c = configs.clone();
+    report.phase(with_md_host(|| seq_phase("base-alphabet, Markdown host whose start comment goes on after the tag", C06_BASE, cfg.tier.pick(3, 4), cfg, sink, move |lines, sink| c06_check(lines, &c, sink))));
     report.phase(conformance_phase("C06", C06_BASE, cfg, sink, render_c06));
     report
 }
@@ -398,19 +484,25 @@ pub fn replay_c06(cfg: &Cfg, input: &Value, sink: &Arc<Sink>) {
         }
         return;
     }
-    if input["crlf"].as_bool() == Some(true) {
-        with_crlf(|| c06_check(&lines, &c06_configs(), sink));
-        return;
-    }
-    c06_check(&lines, &c06_configs(), sink);
+    with_flags(input, || c06_check(&lines, &c06_configs(), sink));
 }
 
 // ---------------------------------------------------------------------------------------------
 // C07 keep-unique
 // ---------------------------------------------------------------------------------------------
 
-const C07_BASE: &[&str] = &["a", "b", "  a", "a ", "", "id=1 x", "id=1 y", "id=2 x", "zz", "y id=2", "   ", "A", "\u{2003}a\u{a0}", "\u{3000}"];
-const C07_PATTERNS: &[Option<&str>] = &[None, Some(r"id=(?P<value>\d+)"), Some(r"id=\d+"), Some(r"^id=\d+"), Some(r"id=(?P<value>\d+) \w")];
+const C07_BASE: &[&str] = &["a", "b", "  a", "a ", "", "id=1 x", "id=1 y", "id=2 x", "zz", "y id=2", "   ", "A", "\u{2003}a\u{a0}", "\u{3000}", "id= q"];
+const C07_PATTERNS: &[Option<&str>] = &[
+    None,
+    Some(r"id=(?P<value>\d+)"),
+    Some(r"id=\d+"),
+    Some(r"^id=\d+"),
+    Some(r"id=(?P<value>\d+) \w"),
+    // A group that may be empty (the empty string is a key like any other) and a key anchored
+    // at the end of the line.
+    Some(r"id=(?P<value>\d*)"),
+    Some(r"(?P<value>\S+)$"),
+];
 
 fn first_duplicate(keys: &[Key]) -> Option<usize> {
     for i in 0..keys.len() {
@@ -422,8 +514,8 @@ fn first_duplicate(keys: &[Key]) -> Option<usize> {
 }
 
 fn c07_check(lines: &[String], sink: &Sink) {
-    let input = json!({"lines": lines, "crlf": crlf()});
-    let mut batch = Batch::new();
+    let input = json!({"lines": lines, "crlf": crlf(), "md_host": md_host()});
+    let mut batch = new_batch("keep-unique");
     let mut expected = Vec::new();
     let mut labels = Vec::new();
     let mut nontrivial = false;
@@ -432,30 +524,32 @@ fn c07_check(lines: &[String], sink: &Sink) {
             None => "keep-unique".to_string(),
             Some(p) => format!("keep-unique={}", quote(p)),
         };
-        let re = pat.map(|p| Regex::new(p).unwrap());
+        let re = pat.map(|p| cached_regex(p));
         let ks = keys(lines, re.as_ref());
         let idx = batch.block(&attrs, lines);
-        let tag_line = batch.blocks[idx].tag_line;
+        let first = batch.blocks[idx].first_content_line;
         nontrivial |= ks.len() >= 2;
-        expected.push(first_duplicate(&ks).map(|i| (tag_line + 1 + ks[i].line_idx, ks[i].col_start, ks[i].col_end)));
-        labels.push(match pat { None => "none", Some(p) if p.ends_with("\\w") => "group-inside-longer-match", Some(p) if p.contains("value") => "group", Some(p) if p.starts_with('^') => "anchored", _ => "plain" });
+        expected.push(first_duplicate(&ks).map(|i| (first + ks[i].line_idx, ks[i].col_start, ks[i].col_end)));
+        labels.push(match pat { None => "none", Some(p) if p.ends_with("\\w") => "group-inside-longer-match", Some(p) if p.ends_with("\\d*)") => "group-may-be-empty", Some(p) if p.ends_with('$') => "end-anchored", Some(p) if p.contains("value") => "group", Some(p) if p.starts_with('^') => "anchored", _ => "plain" });
     }
     // Also the empty-attribute spelling.
     let idx = batch.block("keep-unique=\"\"", lines);
     let ks = keys(lines, None);
-    expected.push(first_duplicate(&ks).map(|i| (batch.blocks[idx].tag_line + 1 + ks[i].line_idx, ks[i].col_start, ks[i].col_end)));
+    expected.push(first_duplicate(&ks).map(|i| (batch.blocks[idx].first_content_line + ks[i].line_idx, ks[i].col_start, ks[i].col_end)));
     labels.push("empty");
 
+    close_batch(&mut batch, "keep-unique");
     sink.exec();
-    let outcome = run_file("x.py", batch.text());
+    let outcome = run_file(batch.file_name(), batch.text());
     sink.outcome(outcome.class());
     if common_failure("C07", &outcome, sink, &input, "") {
         return;
     }
-    if outcome.blocks().len() != batch.blocks.len() {
+    if outcome.blocks().len() != batch.blocks.len() + batch.companions.len() {
         sink.machinery(format!("C07: scaffold yielded {} blocks for {input}", outcome.blocks().len()));
         return;
     }
+    check_companions("C07", &batch, outcome.diags(), sink, &input);
     let (by_block, stray) = per_block(&batch, outcome.diags(), "keep-unique", false);
     for d in stray {
         sink.fail("C07:stray-diagnostic", format!("diagnostic not attributable: {}", diag_lines(d)), input.clone());
@@ -472,7 +566,7 @@ fn c07_check(lines: &[String], sink: &Sink) {
                 let r = d.range;
                 if (r.0 as usize, r.2 as usize) != (e.0, e.0) {
                     sink.fail(format!("C07:wrong-line-designated:pat={label}"), format!("{}: first repeated key is at line {} but diagnostic is {}", ctx(), e.0, diag_lines(d)), input.clone());
-                } else if (r.1 as usize, r.3 as usize) != (e.1, e.2) {
+                } else if e.1 <= e.2 && (r.1 as usize, r.3 as usize) != (e.1, e.2) {
                     sink.fail(format!("C07:wrong-columns:pat={label}"), format!("{}: expected cols {}-{} but diagnostic is {}", ctx(), e.1, e.2, diag_lines(d)), input.clone());
                 } else if d.severity != 1 {
                     sink.fail("C07:wrong-severity", format!("{}: severity {}", ctx(), d.severity), input.clone());
@@ -501,6 +595,7 @@ pub fn run_c07(cfg: &Cfg, sink: &Arc<Sink>) -> Report {
     report.phase(seq_phase("base-alphabet", C07_BASE, cfg.tier.pick(4, 5), cfg, sink, c07_check));
     report.phase(seq_phase("long blocks over a 4-line alphabet", C07_LONG, cfg.tier.pick(7, 9), cfg, sink, c07_check));
     report.phase(with_crlf(|| seq_phase("base-alphabet, CRLF line ends", C07_BASE, cfg.tier.pick(3, 4), cfg, sink, c07_check)));
+    report.phase(with_md_host(|| seq_phase("base-alphabet, Markdown host whose start comment goes on after the tag", C07_BASE, cfg.tier.pick(3, 4), cfg, sink, c07_check)));
     report.phase(conformance_phase("C07", C07_BASE, cfg, sink, render_c07));
     report
 }
@@ -515,11 +610,7 @@ pub fn replay_c07(cfg: &Cfg, input: &Value, sink: &Arc<Sink>) {
         }
         return;
     }
-    if input["crlf"].as_bool() == Some(true) {
-        with_crlf(|| c07_check(&lines, sink));
-        return;
-    }
-    c07_check(&lines, sink);
+    with_flags(input, || c07_check(&lines, sink));
 }
 
 // ---------------------------------------------------------------------------------------------
@@ -530,29 +621,31 @@ const C08_BASE: &[&str] = &["abc", "ab1", "  abc", "abc  ", "", "   ", "x1y", "1
 const C08_PATTERNS: &[&str] = &["^[a-z]+$", "[0-9]", "^x", "y$", r"^\S+$"];
 
 fn c08_check(lines: &[String], sink: &Sink) {
-    let input = json!({"lines": lines, "crlf": crlf()});
-    let mut batch = Batch::new();
+    let input = json!({"lines": lines, "crlf": crlf(), "md_host": md_host()});
+    let mut batch = new_batch("line-pattern");
     let mut expected = Vec::new();
     for p in C08_PATTERNS {
-        let re = Regex::new(p).unwrap();
+        let re = cached_regex(p);
         let idx = batch.block(&format!("line-pattern={}", quote(p)), lines);
-        let tag_line = batch.blocks[idx].tag_line;
+        let first = batch.blocks[idx].first_content_line;
         let exp = lines.iter().enumerate().find_map(|(i, l)| {
             let (t, c1, c2) = trimmed(l)?;
-            if re.is_match(&t) { None } else { Some((tag_line + 1 + i, c1, c2)) }
+            if re.is_match(&t) { None } else { Some((first + i, c1, c2)) }
         });
         expected.push(exp);
     }
+    close_batch(&mut batch, "line-pattern");
     sink.exec();
-    let outcome = run_file("x.py", batch.text());
+    let outcome = run_file(batch.file_name(), batch.text());
     sink.outcome(outcome.class());
     if common_failure("C08", &outcome, sink, &input, "") {
         return;
     }
-    if outcome.blocks().len() != batch.blocks.len() {
+    if outcome.blocks().len() != batch.blocks.len() + batch.companions.len() {
         sink.machinery(format!("C08: scaffold yielded {} blocks for {input}", outcome.blocks().len()));
         return;
     }
+    check_companions("C08", &batch, outcome.diags(), sink, &input);
     let (by_block, stray) = per_block(&batch, outcome.diags(), "line-pattern", false);
     for d in stray {
         sink.fail("C08:stray-diagnostic", format!("diagnostic not attributable: {}", diag_lines(d)), input.clone());
@@ -590,6 +683,7 @@ pub fn run_c08(cfg: &Cfg, sink: &Arc<Sink>) -> Report {
     report.phase(seq_phase("base-alphabet", C08_BASE, cfg.tier.pick(4, 5), cfg, sink, c08_check));
     report.phase(seq_phase("long blocks over a 4-line alphabet", C08_LONG, cfg.tier.pick(7, 9), cfg, sink, c08_check));
     report.phase(with_crlf(|| seq_phase("base-alphabet, CRLF line ends", C08_BASE, cfg.tier.pick(3, 4), cfg, sink, c08_check)));
+    report.phase(with_md_host(|| seq_phase("base-alphabet, Markdown host whose start comment goes on after the tag", C08_BASE, cfg.tier.pick(3, 4), cfg, sink, c08_check)));
     report.phase(conformance_phase("C08", C08_BASE, cfg, sink, render_c08));
     report
 }
@@ -604,11 +698,7 @@ pub fn replay_c08(cfg: &Cfg, input: &Value, sink: &Arc<Sink>) {
         }
         return;
     }
-    if input["crlf"].as_bool() == Some(true) {
-        with_crlf(|| c08_check(&lines, sink));
-        return;
-    }
-    c08_check(&lines, sink);
+    with_flags(input, || c08_check(&lines, sink));
 }
 
 // ---------------------------------------------------------------------------------------------
@@ -699,6 +789,17 @@ fn c09_check(seq: &[u8], sink: &Sink) {
         let mut tag_lines: Vec<(usize, &str, usize)> = Vec::new(); // (line, op, n)
         let mut line_no = 1usize;
         let mut expected: Vec<(usize, String, usize, bool)> = Vec::new(); // tag line, op, n, violation
+        // Companions: violating blocks of the other synchronous validators in the same file, one
+        // before and two after the grid; (code, first line, last line).
+        let mut companions: Vec<(&str, usize, usize)> = Vec::new();
+        let mut companion = |text: &mut String, line_no: &mut usize, code: &'static str, attrs: &str, body: &str| {
+            let rendered = format!("// <block {attrs}>\n{body}// </block>\n");
+            let n = rendered.matches('\n').count();
+            companions.push((code, *line_no, *line_no + n - 1));
+            *line_no += n;
+            text.push_str(&rendered);
+        };
+        companion(&mut text, &mut line_no, "keep-sorted", "keep-sorted", "q2;\nq1;\n");
         for (op, f) in C09_OPS {
             for (pre, mid, post) in C09_SPACING {
                 for n in 0..=C09_MAX_N {
@@ -719,6 +820,8 @@ fn c09_check(seq: &[u8], sink: &Sink) {
                 }
             }
         }
+        companion(&mut text, &mut line_no, "keep-unique", "keep-unique", "q1;\nq1;\n");
+        companion(&mut text, &mut line_no, "line-pattern", "line-pattern=\"^z\"", "q1;\n");
         sink.exec();
         let outcome = run_file("x.js", &text);
         sink.outcome(format!("{layout:?}:actual={actual}:{}", outcome.class()));
@@ -726,9 +829,16 @@ fn c09_check(seq: &[u8], sink: &Sink) {
             continue;
         }
         let nested = seq.iter().filter(|&&s| s == 5).count();
-        if outcome.blocks().len() != expected.len() * (1 + nested) {
-            sink.machinery(format!("C09: scaffold yielded {} blocks, expected {} for {input}", outcome.blocks().len(), expected.len() * (1 + nested)));
+        if outcome.blocks().len() != expected.len() * (1 + nested) + companions.len() {
+            sink.machinery(format!("C09: scaffold yielded {} blocks, expected {} for {input}", outcome.blocks().len(), expected.len() * (1 + nested) + companions.len()));
             continue;
+        }
+        let in_companion = |d: &Diag| companions.iter().position(|c| c.0 == d.code && c.1 <= d.range.0 as usize && d.range.0 as usize <= c.2);
+        for (i, (code, from, to)) in companions.iter().enumerate() {
+            let n = outcome.diags().iter().filter(|d| in_companion(d) == Some(i)).count();
+            if n != 1 {
+                sink.fail(format!("C09:companion-diagnostics:{code}:{n}"), format!("the violating {code} block at lines {from}-{to} of the same file has {n} diagnostics instead of 1"), input.clone());
+            }
         }
         for (tag_line, op, n, violation) in &expected {
             let got: Vec<&Diag> = outcome.diags().iter().filter(|d| d.range.0 as usize == *tag_line).collect();
@@ -750,7 +860,8 @@ fn c09_check(seq: &[u8], sink: &Sink) {
                 (true, many) => sink.fail(format!("C09:more-than-one-diagnostic:op{op}"), format!("{}: {} diagnostics on one tag", ctx(), many.len()), input.clone()),
             }
         }
-        let attributed: usize = expected.iter().map(|(l, ..)| outcome.diags().iter().filter(|d| d.range.0 as usize == *l).count()).sum();
+        let attributed: usize = expected.iter().map(|(l, ..)| outcome.diags().iter().filter(|d| d.range.0 as usize == *l).count()).sum::<usize>()
+            + outcome.diags().iter().filter(|d| in_companion(d).is_some()).count();
         if attributed != outcome.diags().len() {
             sink.fail("C09:stray-diagnostic", format!("{} diagnostics do not sit on a line-count tag", outcome.diags().len() - attributed), input.clone());
         }
@@ -788,11 +899,7 @@ pub fn run_c09(cfg: &Cfg, sink: &Arc<Sink>) -> Report {
 
 pub fn replay_c09(_cfg: &Cfg, input: &Value, sink: &Arc<Sink>) {
     let seq: Vec<u8> = serde_json::from_value(input["seq"].clone()).unwrap_or_default();
-    if input["crlf"].as_bool() == Some(true) {
-        with_crlf(|| c09_check(&seq, sink));
-        return;
-    }
-    c09_check(&seq, sink);
+    with_flags(input, || c09_check(&seq, sink));
 }
 
 pub fn bench_git(threads: usize) {
